@@ -46,6 +46,15 @@ func (c *Context) Value(key interface{}) interface{} {
 		if c.outer != nil {
 			return c.outer.Value(s)
 		}
+		if v := c.Context.Value(key); v != nil {
+			return v
+		}
+		// a default helper registered after the root context was made: it is
+		// known in every scope, and hidden by anything stored under its name
+		if h, ok := Helpers.Get(s); ok {
+			return h
+		}
+		return nil
 	}
 
 	return c.Context.Value(key)
@@ -134,9 +143,10 @@ func NewContextWithOuter(data map[string]interface{}, out *Context) *Context {
 	}
 
 	if out != nil {
-		// an inner scope finds the default helpers through its outer scopes:
-		// a copy of its own would hide a value the user stores under a
-		// helper's name in an outer scope afterwards
+		// an inner scope finds the default helpers through its outer scopes
+		// (and those registered later through Value): a copy of its own
+		// would hide a value the user stores under a helper's name in an
+		// outer scope afterwards
 		return c
 	}
 
